@@ -112,6 +112,9 @@ func (evidWorld) Gen(prop, tier string, idx int, r *Rng) *Trace {
 			op.A = r.Intn(nClaims)
 		case "sign", "vsign":
 			op.A = r.Intn(nSig)
+			if r.Chance(1, 5) {
+				op.D = 1 // a signer that serves somebody else before it answers
+			}
 		case "unmarshal", "decgate", "cloneunmarshal":
 			op.A = r.Intn(nTok)
 		case "verify":
@@ -125,7 +128,7 @@ func (evidWorld) Gen(prop, tier string, idx int, r *Rng) *Trace {
 				op.A = cfg.Signers[r.Intn(nSig)].Key
 			}
 		case "mutate":
-			op.A = r.Intn(14)
+			op.A = r.Intn(15)
 			op.B = r.Intn(1 << 20)
 		}
 		if r.Chance(faultRate, 8) {
@@ -369,6 +372,17 @@ func (evidWorld) Exec(prop string, t *Trace) *Result {
 				fs = &FaultySigner{inner: hs, kind: op.F}
 				signer = fs
 			}
+			var busyOther psatoken.IClaims
+			if op.D == 1 {
+				for k := range live {
+					if c := live[(op.A+1+k)%len(live)]; c != nil && c != e.Claims {
+						busyOther = c
+						break
+					}
+				}
+				signer = &BusySigner{inner: signer, other: busyOther}
+				res.Probes["busy_signer"]++
+			}
 			var v error
 			{
 				saved := codecFault
@@ -469,6 +483,9 @@ func (evidWorld) Exec(prop string, t *Trace) *Result {
 					var ssigner cose.Signer = hs
 					if fs != nil {
 						ssigner = &FaultySigner{inner: hs, kind: op.F}
+					}
+					if op.D == 1 {
+						ssigner = &BusySigner{inner: ssigner, other: busyOther}
 					}
 					if codecArmed {
 						n := op.B
@@ -642,6 +659,14 @@ func (evidWorld) Exec(prop string, t *Trace) *Result {
 				break
 			}
 			c := e.Claims
+			if op.A%15 == 14 {
+				// the template idiom: next := *attached; next.SetNonce(fresh) ... The attached object itself
+				// is not touched, so this is NOT a replacement of the claims
+				forkAndSet(c, op.B)
+				res.Probes["attached_claims_forked_by_struct_copy"]++
+				res.logf("%d fork", i)
+				break
+			}
 			switch op.A % 14 {
 			case 5, 6, 7, 8, 9, 10, 11, 12, 13:
 				// the owner edits exported fields of its claims object directly: states no setter can produce
@@ -907,7 +932,16 @@ func allPairGates(res *Result, i int, b []byte) (gateInvalid, gateValid int) {
 // decodeGates evaluates C08's decode-and-validate twins on one byte string.
 func decodeGates(res *Result, i int, tok []byte) (gateInvalid, gateValid int) {
 	cp := func() []byte { return append([]byte{}, tok...) }
-	d, de := psatoken.DecodeEvidenceFromCOSE(cp())
+	d, de := func() (ev *psatoken.Evidence, err error) {
+		defer func() {
+			if r := recover(); r != nil {
+				// panics are C05's to judge
+				res.Probes["gate_panic_skipped"]++
+				ev, err = nil, fmt.Errorf("panic: %v", r)
+			}
+		}()
+		return psatoken.DecodeEvidenceFromCOSE(cp())
+	}()
 	dv, dve := func() (ev *psatoken.Evidence, err error) {
 		defer func() {
 			if r := recover(); r != nil {
@@ -1189,6 +1223,32 @@ func fieldMutate(c psatoken.IClaims, code int) {
 		_ = scs[0].SetVersion("1.2.3-amended")
 		_ = scs[0].SetMeasurementDesc("amended in place")
 	}
+}
+
+// forkAndSet makes a struct copy of c (next := *c) and calls the scalar and
+// byte-string setters on the copy. The component container is shared by such a
+// copy, so the component setter is left alone.
+func forkAndSet(c psatoken.IClaims, salt int) {
+	defer func() { _ = recover() }()
+	v := reflect.ValueOf(c)
+	if v.Kind() != reflect.Ptr || v.IsNil() {
+		return
+	}
+	n := reflect.New(v.Elem().Type())
+	n.Elem().Set(v.Elem())
+	f, ok := n.Interface().(psatoken.IClaims)
+	if !ok {
+		return
+	}
+	r := NewRng(uint64(salt) + 0xf0)
+	_ = f.SetNonce(r.Bytes(32))
+	_ = f.SetImplID(r.Bytes(32))
+	_ = f.SetBootSeed(r.Bytes(32))
+	_ = f.SetInstID(append([]byte{0x01}, r.Bytes(32)...))
+	_ = f.SetClientID(int32(salt) + 7)
+	_ = f.SetSecurityLifeCycle(uint16(0x3000 + salt%256))
+	_ = f.SetVSI(fmt.Sprintf("forked-%d", salt))
+	_ = f.SetCertificationReference("1234567890123-54321")
 }
 
 // decodeLike decodes payload into a fresh claims object of the same dynamic
